@@ -176,9 +176,12 @@ package engine
 //@   requires poolShape(gp)
 //@   guardfield builder.RuleBuilder.Kc by gp.updateLock
 //@   ghost RE0 = gp.ruleBuilder.Kc.RuleEntities
+//@   ghost KCS = emptyintmap()
 //@   ghost ok bool = false
 //@   oncall (*sync.Mutex).Lock
 //@     after RE0 := gp.ruleBuilder.Kc.RuleEntities
+//@   oncall (*builder.RuleBuilder).RemoveRules
+//@     after KCS := ite(recv == gp.ruleBuilder, KCS, store(KCS, gget(rbidx, recv), recv.Kc))
 //@   oncall (*sync.Mutex).Unlock
 //@     before ok := forall k: string :: (k in gp.ruleBuilder.Kc.RuleEntities) ==> (k in RE0) && gp.ruleBuilder.Kc.RuleEntities[k] == RE0[k] && (forall qi :: lo(ruleNames) <= qi && qi < hi(ruleNames) ==> at(ruleNames, qi) != k)
 //@   ensures [C16] removed: result == nil ==> ok
@@ -188,7 +191,8 @@ package engine
 //@   loop 0 invariant pub: held(gp.updateLock) && -1 <= rangeindex && rangeindex < len(gp.rbSlice) && len(ruleNames) > 0 && gp.ruleBuilder != nil && gget(rbidx, gp.ruleBuilder) == -1 && wfKc(gp.ruleBuilder.Kc) && (gp.execModel == 1 || gp.execModel == 2 || gp.execModel == 3 || gp.execModel == 4) && (gp.clear ==> emptymap(gp.ruleBuilder.Kc.RuleEntities))
 //@   loop 0 invariant view: forall k: string :: (k in gp.ruleBuilder.Kc.RuleEntities) ==> (k in RE0) && gp.ruleBuilder.Kc.RuleEntities[k] == RE0[k] && (forall qi :: lo(ruleNames) <= qi && qi < hi(ruleNames) ==> at(ruleNames, qi) != k)
 //@   loop 0 invariant viewonto: forall k: string :: (k in RE0) && !(k in gp.ruleBuilder.Kc.RuleEntities) ==> exists qi :: lo(ruleNames) <= qi && qi < hi(ruleNames) && at(ruleNames, qi) == k
-//@   loop 0 invariant done: forall qa :: lo(gp.rbSlice) <= qa && qa <= lo(gp.rbSlice) + rangeindex ==> wfKc(at(gp.rbSlice, qa).Kc) && sameView(at(gp.rbSlice, qa).Kc, gp.ruleBuilder.Kc)
+//@   loop 0 invariant link: forall qa :: lo(gp.rbSlice) <= qa && qa <= lo(gp.rbSlice) + rangeindex ==> at(gp.rbSlice, qa).Kc == KCS[qa - lo(gp.rbSlice)]
+//@   loop 0 invariant done: forall qi :: 0 <= qi && qi <= rangeindex ==> wfKc(KCS[qi]) && sameView(KCS[qi], gp.ruleBuilder.Kc)
 //@   loop 0 invariant rest: forall qa :: lo(gp.rbSlice) + rangeindex < qa && qa < hi(gp.rbSlice) ==> wfKc(at(gp.rbSlice, qa).Kc) && (forall k: string :: ((k in at(gp.rbSlice, qa).Kc.RuleEntities) <==> (k in RE0)) && ((k in RE0) ==> at(gp.rbSlice, qa).Kc.RuleEntities[k] == RE0[k]))
 //@   loop 0 decreases len(gp.rbSlice) - rangeindex
 
@@ -290,6 +294,7 @@ package engine
 
 //@ func (*Gengine).GetRulesResultMap
 //@   props C11
+//@   requires g != nil
 //@   ensures result.0 == g.returnResult && result.1 == nil
 //@   modifies nothing
 //@   nopanic
@@ -510,3 +515,55 @@ package engine
 //@   requires sTag != nil
 //@   use poolwrapper(prepareWithMultiInput)
 //@   use poolcall(ExecuteWithStopTagDirect)
+
+// ---------------------------------------------------------------------------
+// incremental update (C07, C08, C10, C16)
+
+// getKc compiles a text into a fresh container: accepts exactly what every other entry point accepts (C10)
+//@ func getKc
+//@   props C10 C08
+//@   entry nolocks
+//@   ensures [C10] agreement: (result.1 == nil) <==> (!blank(ruleString) && !LexErrs(ruleString) && !SynErrs(ruleString) && !SemErrs(ruleString))
+//@   ensures [C08] parsed: result.1 == nil ==> fresh(result.0) && wfParsed(result.0) && len(result.0.RuleEntities) > 0
+//@   ensures failed: result.1 != nil ==> result.0 == nil
+//@   modifies nothing
+
+// updateIncremental merges the parsed rules into the builder's rule set WITHOUT writing the published container (C07-A):
+// the result is a fresh container holding old (+) parsed
+//@ func updateIncremental
+//@   props C07 C08 C16
+//@   arith int unchecked
+//@   requires kc != nil && rb != nil && wfParsed(kc) && wfKc(rb.Kc)
+//@   ensures [C07] freshcontainer: fresh(rb.Kc)
+//@   ensures_trusted [C08] merged: wfKc(rb.Kc) && (forall k: string :: (k in rb.Kc.RuleEntities) <==> (old(k in rb.Kc.RuleEntities) || (k in kc.RuleEntities))) && (forall k: string :: (k in kc.RuleEntities) ==> rb.Kc.RuleEntities[k] == kc.RuleEntities[k]) && (forall k: string :: old(k in rb.Kc.RuleEntities) && !(k in kc.RuleEntities) ==> rb.Kc.RuleEntities[k] == old(rb.Kc.RuleEntities[k]))
+//@   modifies rb.Kc
+//@   panicsafe
+//@   loop 0 invariant a: newRuleEntities != nil && fresh(newRuleEntities)
+//@   loop 1 invariant b: newRuleEntities != nil && fresh(newRuleEntities) && fresh(arr(newSortRules)) && lo(newSortRules) == 0
+//@   loop 2 invariant c: newRuleEntities != nil && fresh(newRuleEntities) && (isnil(newSortRules) || fresh(arr(newSortRules)))
+//@   loop 3 invariant d: newRuleEntities != nil && fresh(newRuleEntities) && indexMap != nil && fresh(indexMap) && (isnil(newSortRules) || fresh(arr(newSortRules)))
+//@   loop 4 invariant e: newRuleEntities != nil && fresh(newRuleEntities) && indexMap != nil && fresh(indexMap) && (isnil(newSortRules) || fresh(arr(newSortRules)))
+
+//@ func (*GenginePool).UpdatePooledRulesIncremental
+//@   props C07 C10 C16 C19
+//@   entry nolocks
+//@   requires poolShape(gp)
+//@   guardfield builder.RuleBuilder.Kc by gp.updateLock
+//@   ghost m0 = gp.ruleBuilder
+//@   ghost mk0 = gp.ruleBuilder.Kc
+//@   ghost unchanged bool = true
+//@   ghost published bool = false
+//@   oncall (*sync.Mutex).Lock
+//@     after m0 := gp.ruleBuilder
+//@     after mk0 := gp.ruleBuilder.Kc
+//@   oncall (*sync.Mutex).Unlock
+//@     before unchanged := gp.ruleBuilder == m0 && gp.ruleBuilder.Kc == mk0
+//@     before published := gp.ruleBuilder == m0 && !gp.clear && (forall qa :: lo(gp.rbSlice) <= qa && qa < hi(gp.rbSlice) ==> at(gp.rbSlice, qa).Kc == gp.ruleBuilder.Kc)
+//@   ensures [C10] agreement: (result == nil) <==> (!blank(ruleStr) && !LexErrs(ruleStr) && !SynErrs(ruleStr) && !SemErrs(ruleStr))
+//@   ensures [C10] allornothing: result != nil ==> unchanged
+//@   ensures [C07,C16] publishedtoall: result == nil ==> published
+//@   modifies gp.execModel, gp.clear, gp.ruleBuilder, builder.RuleBuilder.Kc
+//@   loop 0 invariant pub: held(gp.updateLock) && 0 <= i && i <= gp.max && gp.ruleBuilder == m0 && gp.ruleBuilder != nil && gget(rbidx, gp.ruleBuilder) == -1 && wfKc(gp.ruleBuilder.Kc) && fresh(gp.ruleBuilder.Kc) && (gp.execModel == 1 || gp.execModel == 2 || gp.execModel == 3 || gp.execModel == 4)
+//@   loop 0 invariant done: forall qa :: lo(gp.rbSlice) <= qa && qa < lo(gp.rbSlice) + i ==> at(gp.rbSlice, qa).Kc == gp.ruleBuilder.Kc
+//@   loop 0 invariant rest: forall qa :: lo(gp.rbSlice) + i <= qa && qa < hi(gp.rbSlice) ==> wfKc(at(gp.rbSlice, qa).Kc)
+//@   loop 0 decreases gp.max - i
